@@ -149,7 +149,9 @@ def generate(seed, tier):
             # LibYAML flushes in 16 KiB blocks: a large value gives several write invocations
             case['values'][0] = ['list', [case['values'][0]] + [['str', 'filler %d %s' % (i, 'x' * (i % 50))]
                                                                for i in range(rv.randint(600, 1500))], 9999]
-        case.update(api=api, dumper=dumper, opts=gen_opts(r, dumper.startswith('C')),
+        opts = gen_opts(r, dumper.startswith('C'))
+        case['values'] = [values.hash_order_free(v, opts.get('sort_keys', True)) for v in case['values']]
+        case.update(api=api, dumper=dumper, opts=opts,
                     stream={'kind': r.choice(['text', 'binary']), 'flush': r.random() < 0.7},
                     encoding=r.choice([None, None, 'utf-8', 'utf-16-le', 'utf-16-be']),
                     gen_docs=r.random() < 0.5)
@@ -157,6 +159,7 @@ def generate(seed, tier):
             case['values'] = case['values'][:1]
             case['gen_docs'] = False
         return case
+    case['values'] = [values.hash_order_free(v) for v in case['values']]
     api = r.choice(['load', 'load_all', 'load_all'] if custom else
                    ['load', 'load_all', 'load_all', 'compose', 'compose_all', 'parse', 'scan'])
     loader = r.choice(LOADERS)
